@@ -64,6 +64,15 @@
 (* overwritten - not use of the store the properties speak about), and     *)
 (* LoadVersion(0) on a live handle (see "LoadZeroLoadsLatest").            *)
 (*                                                                         *)
+(* Keys are opaque NAMES here ("a", "ab", "b").  Nothing depends on the     *)
+(* bytes a name stands for except the prefix relation between names       *)
+(* (HasPrefix, for "/subspace" queries): the drivers map names to bytes     *)
+(* letter by letter through a per-program palette of prefix-free images    *)
+(* (identity, or images with bytes 0x00 / 0xFE / 0xFF: a first byte 0xFF in *)
+(* at least a third of the programs), which is injective and preserves     *)
+(* that relation, for IAVL and transient stores alike, and translate back  *)
+(* what they report.                                                       *)
+(*                                                                         *)
 (* The pruning options of a behaviour are either a pair <<keepRecent,      *)
 (* keepEvery>> handed to the store directly (strat = NoStrategy) or a      *)
 (* STRATEGY STRING as found in a node's configuration, resolved by         *)
@@ -247,6 +256,20 @@ QueryMS(s, k, h, prove) ==
                        multistore op built from the commit info of multistore version eh *)
                     ptree |-> disk[s][eh].tok, pinfo |-> cinfo[eh]]
 
+(* iavl.Store.Query "/subspace" (rootmulti.Store.Query routes it; no proof is required for this
+   path): the pairs of the LATEST COMMITTED version of the tree - tree.GetImmutable(tree.Version()),
+   never the working tree with the uncommitted writes of the running block - whose key has the
+   prefix, in key order; the requested height is ignored (the repository's TestIAVLStoreQuery pins
+   that).  The answer is a map here; that the real list is in key order and duplicate free is
+   checked where the real answer is seen.  baseapp.handleQueryStore in front of it only replaces
+   height 0 (which is ignored anyway). *)
+HasPrefix(k, p) == Len(p) <= Len(k) /\ SubSeq(k, 1, Len(p)) = p
+SubspaceMS(s, p) ==
+    IF tver[s] \notin DOMAIN disk[s]
+    THEN [ok |-> FALSE, kv |-> EmptyMap]     \* ErrVersionDoesNotExist (nothing saved yet): no answer
+    ELSE LET c == disk[s][tver[s]].c IN
+         [ok |-> TRUE, kv |-> Restrict(c, {k \in DOMAIN c : HasPrefix(k, p)})]
+
 (* the real verifier is the oracle; this is what the chain must amount to *)
 Verifies(s, r, root) == r.proof /\ r.pinfo[s].tok = r.ptree /\ MsTok(r.pinfo) = root
 
@@ -270,6 +293,11 @@ QEntry(via, s, k, h, p) ==
     (* <<via, store, key, height, prove,  err, value, proof, height', heights it verifies against>> *)
     <<via, s, k, h, p, r.err, r.value, r.proof, r.height,
       IF r.proof THEN {v \in DOMAIN cinfo : Verifies(s, r, MsTok(cinfo[v]))} ELSE {}>>
+(* prefixes asked: every key (a prefix equal to a whole key; "a" has its successor "b" stored) and
+   one nobody has *)
+QPrefixes == Keys \cup {"c"}
+SEntry(via, s, p, h) ==
+    LET r == SubspaceMS(s, p) IN <<via, s, p, h, r.ok, r.kv>>
 FullObs ==
     LET top == Len(committed) + 1 IN
     [loads |-> IF "loads" \notin ObsKind THEN <<>> ELSE
@@ -279,6 +307,9 @@ FullObs ==
      queries |-> IF "queries" \notin ObsKind THEN {} ELSE
                 {QEntry(via, s, k, h, p) : via \in {"ms", "app"}, s \in Stores, k \in Keys,
                                            h \in 0..top, p \in BOOLEAN},
+     subs |-> IF "queries" \notin ObsKind THEN {} ELSE
+                {SEntry(via, s, p, h) : via \in {"ms", "app"}, s \in Stores, p \in QPrefixes,
+                                        h \in {0, 1, hver, top}},
      clean |-> ~dirty]
 
 Rec(e) == /\ hist' = IF Record THEN Append(hist, e) ELSE hist
@@ -678,6 +709,11 @@ P_NoDataForPrunedOrFuture(via, q, r) ==
         (q.h > hver \/ (q.h # 0 /\ ~Retained(q.h, hver))) => (r.value = "<nil>" /\ ~r.proof)
 
 QState == up /\ Idle /\ ~dirty /\ ~rolled
+(* a subspace query answers with exactly the committed pairs of the latest version under the
+   prefix - whatever is uncommitted *)
+P_SubspaceIsCommitted(s, p) ==
+    LET r == SubspaceMS(s, p) c == ContentAt(hver)[s] IN
+    hver >= 1 => (r.ok /\ r.kv = Restrict(c, {k \in DOMAIN c : HasPrefix(k, p)}))
 Inv_QueryIsCommitted ==
     QState => \A via \in {"ms", "app"} : \A q \in QArgs : P_QueryIsCommitted(via, q, QRes(via, q))
 Inv_ProofBindsHeight ==
@@ -688,6 +724,8 @@ Inv_NoDataForPrunedOrFuture ==
 Inv_C14 ==
     QState => \A via \in {"ms", "app"} : \A q \in QArgs : LET r == QRes(via, q) IN
         P_QueryIsCommitted(via, q, r) /\ P_ProofBindsHeight(via, q, r) /\ P_NoDataForPrunedOrFuture(via, q, r)
+Inv_SubspaceIsCommitted ==
+    QState => \A s \in Stores : \A p \in QPrefixes : P_SubspaceIsCommitted(s, p)
 
 W_NoBrick == Witness(Inv_NoBrick)
 W_RecoverAtomic == Witness(Inv_RecoverAtomic)
